@@ -56,6 +56,8 @@ MovesAgg(h, kn) ==
     ELSE IF t.part # <<>>
     THEN MapS(ae, LAMBDA e : MSummarize(i, <<KV("s", e)>>))
          \o (IF Len(ae) >= 2 THEN <<MSummarize(i, <<KV("s", ae[1]), KV("n", Len0)>>)>> ELSE <<>>)
+         \* an aggregate named like a grouping column replaces it in the result
+         \o (IF ae # <<>> THEN <<MSummarize(i, <<KV(gname[1], ae[1])>>), MSummarize(i, <<KV("s", Len0), KV(gname[1], ae[1])>>)>> ELSE <<>>)
          \o <<MSummarize(i, <<>>)>>
          \o MapS(Take(ae, 2), LAMBDA e : MMutate(i, <<KV("w", e)>>))
          \o <<MUngroup(i)>>
